@@ -757,7 +757,7 @@ func (c *Ctx) Outcome(g Outcome) *OblResult {
 		}
 		last := len(p.Events) - 1
 		conds := CondsBefore(p, last)
-		f := ResolvePseudos(when, EventsBefore(p, last), conds)
+		f := ResolvePseudos(ResolveHistory(when, p, last), EventsBefore(p, last), conds)
 		if g.Consistent {
 			ds, ok := DNF(f, false)
 			sat := false
